@@ -1,6 +1,11 @@
 // LIBS: core
 // C14: operations on shared expression DAGs from several threads.
 //   scenario <seed> <nthreads> <ops_per_thread>
+//   lastref  <seed> <nthreads> <trials>
+//       each trial: a shared sub-DAG is built, one distinct parent per thread is built on it, the
+//       builder's own handles are dropped, and the threads destroy their parents at the same
+//       moment (released from a spin barrier) so that TOGETHER they drop the last references;
+//       afterwards the number of live nodes (LIBFIVE_VERIF counter) must be back at its baseline
 // Every thread works on the same shared trees: copy / move / destroy, print, optimise, flatten, remap,
 // serialise, build evaluators and evaluate.  Each answer is compared with the answer computed
 // sequentially before the threads start.  Run under ThreadSanitizer by check/props/c14.py.
@@ -17,6 +22,7 @@
 #include <map>
 
 #include "libfive/tree/tree.hpp"
+#include "libfive/tree/data.hpp"
 #include "libfive/tree/archive.hpp"
 #include "libfive/tree/opcode.hpp"
 #include "libfive/eval/eval_array.hpp"
@@ -50,6 +56,59 @@ int main() {
     while (std::getline(std::cin, line)) {
         std::istringstream ls(line);
         std::string cmd; ls >> cmd;
+        if (cmd == "lastref") {
+            unsigned seed; int nth, trials; ls >> seed >> nth >> trials;
+            std::mt19937 rng(seed);
+            long bad = 0, freed = 0;
+            { Tree warm = Tree::X() + Tree::Y() + Tree::Z(); (void)warm; }
+            for (int tr = -1; tr < trials; ++tr) {   // trial -1 warms function-local static nodes up and is not counted
+                const long base = TreeData::verif_live_nodes().load();
+                std::vector<Tree> parents;
+                {
+                    // shared part: a chain / small DAG of depth 1..4 over X, Y, Z and constants
+                    Tree s = Tree::X() * Tree(float(1 + rng() % 7));
+                    int depth = rng() % 4;
+                    for (int d = 0; d < depth; ++d) {
+                        switch (rng() % 3) {
+                            case 0: s = s + Tree::Y() * Tree(float(d + 2)); break;
+                            case 1: s = Tree::unary(Opcode::OP_SIN, s); break;
+                            default: s = Tree::binary(Opcode::OP_MIN, s, s * Tree(0.5f)); break;
+                        }
+                    }
+                    Tree s2 = (rng() & 1) ? s : Tree::unary(Opcode::OP_NEG, s);
+                    for (int t = 0; t < nth; ++t) {
+                        switch (rng() % 3) {
+                            case 0: parents.push_back(s - Tree(float(t + 1))); break;
+                            case 1: parents.push_back(Tree::binary(Opcode::OP_MAX, s2, Tree(float(t) + 0.5f))); break;
+                            default: parents.push_back(Tree::unary(Opcode::OP_SQUARE, s2)); break;
+                        }
+                    }
+                }   // the builder's handles to the shared part are gone: only the parents own it
+                const long alive = TreeData::verif_live_nodes().load() - base;
+                std::atomic<int> ready(0);
+                std::atomic<bool> go(false);
+                std::vector<std::thread> th;
+                for (int t = 0; t < nth; ++t) {
+                    th.emplace_back([&, t]() {
+                        Tree mine = std::move(parents[t]);
+                        ++ready;
+                        while (!go.load(std::memory_order_acquire)) { }
+                        mine = Tree::invalid();          // drops this thread's parent
+                    });
+                }
+                while (ready.load() < nth) { }
+                go.store(true, std::memory_order_release);
+                for (auto& x : th) x.join();
+                parents.clear();
+                const long after = TreeData::verif_live_nodes().load() - base;
+                if (tr < 0) continue;
+                freed += alive;
+                if (after != 0) { ++bad; std::cerr << "LRBAD trial=" << tr << " after=" << after << " alive=" << alive << std::endl; }
+            }
+            std::cout << "LR seed=" << seed << " threads=" << nth << " trials=" << trials
+                      << " freed=" << freed << " bad=" << bad << std::endl;
+            continue;
+        }
         if (cmd != "scenario") continue;
         unsigned seed; int nth, nops; ls >> seed >> nth >> nops;
         std::mt19937 rng(seed);
